@@ -15,7 +15,7 @@ from qrv.build import r3
 from qrv.oracles import gksl
 
 LEVEL = "exploration"
-RULE = ("random Hamiltonians of dimension 2-5 (degenerate levels, with/without RWA blocks) with Lindblad forms (operator/tensor form) or Redfield tensors from C01's "
+RULE = ("random Hamiltonians of dimension 2-5 (degenerate levels, with/without RWA blocks, every sixth Lindblad case complex Hermitian) with Lindblad forms (operator/tensor form) or Redfield tensors from C01's "
         "generator, with/without Lorentzian pure dephasing; grids of 4-30 points, dense steps 1-20, modes 'all' and 'jit' (save on/off, 1..Nt-1 incremental steps), "
         "apply() with scalar times, 'all', the object's own axis, lists, tuples, arrays and other TimeAxis objects. distinct = (generator class, dim, grid, dense step, "
         "mode history, rounded generator); non-trivial iff U(t_last) differs from the identity by more than 1e-3 and the generator is dissipative or non-diagonal.")
